@@ -202,6 +202,21 @@ def mocks_queue(chk, unlimited):
         for f in (0, 1, 2, 3):
             lines.append("(succ %d %d (%s))" % (unlimited, f, " ".join(map(str, l))))
             meta.append((("succ", tuple(l)), f))
+    # declarations and the tally on queues whose entries have their constraints
+    ekinds = []
+    for f in (0, 1):
+        ekinds += [(f, 1, 0, 0, "()"), (f, 2, 1, 1, "((t 2))"), (f, 3, 3, 0, "((t 3) (r 7))"), (f, 1, 0, 0, "((r 5))"),
+                   (f, unlimited, 0, 4, "()"), (f, -unlimited, 0, 0, "()"), (f, -unlimited, 0, 2, "((t 0))")]
+    decls = ["()", "((t 0))", "((t 2))", "((r 5))", "((t 1) (t 3))", "((p 0 4) (t -1))"]
+    for n in range(0, (2 if chk.tier == "quick" else 3) + 1):
+        for t in itertools.product(ekinds, repeat=n):
+            q = " ".join("(%d %d %d %d %d %s)" % (f, i + 1, ttl, called, trig, cs) for i, (f, ttl, called, trig, cs) in enumerate(t))
+            lines.append("(tally %d (%s))" % (unlimited, q)); meta.append((t, "tally"))
+            if n <= 2:
+                for kind in (0, 1, 2):
+                    for f in (0, 1, 2):
+                        for cs in (decls if n <= 1 or chk.tier == "thorough" else decls[:3]):
+                            lines.append("(decl %d %d %d 9 %s (%s))" % (kind, unlimited, f, cs, q)); meta.append((t, f))
     diffs = _run_pairs(chk, lines, "mocks")
     for i, name, code, model in diffs[:3]:
         chk.disagreement("translated %s of src/mocks.c differs from Mocks.v on the queue %s, function f%d: code %s, model %s" % (
